@@ -213,7 +213,7 @@ def parse_result(o):
     return r
 
 
-def run(ctx):
+def _run(ctx):
     rng = ctx.rng
     thorough = ctx.tier == "thorough"
     ctx.rule = ("table writer (model) == real writer on the attributes written; save -> parse -> compile reproduces every size, "
@@ -441,6 +441,22 @@ def run(ctx):
 
 def o_msg(r):
     return r.get("msg", "")
+
+
+def _distinct_first(ctx):
+    """the replay file keeps the first 20 failures: put one failure of every distinct key first"""
+    seen, head, tail = set(), [], []
+    for f in ctx.oracle_failures:
+        (tail if f["key"] in seen else head).append(f)
+        seen.add(f["key"])
+    ctx.oracle_failures[:] = head + tail
+
+
+def run(ctx):
+    try:
+        _run(ctx)
+    finally:
+        _distinct_first(ctx)
 
 
 if __name__ == "__main__":
